@@ -7,7 +7,11 @@ sys.path.insert(0, os.path.dirname(os.path.dirname(os.path.abspath(__file__))))
 from sim import driver, workload
 from sim.c17 import PRISTINE
 
-progs = workload.load_all()
+progs = workload.load_base()
+for name in ("wide.json", "twin.json", "fat.json"):  # all derived programs, unfiltered
+    path = os.path.join(driver.VERIF, "workload", name)
+    if os.path.exists(path):
+        progs += json.load(open(path, encoding="utf-8"))
 jobs = []
 chunk = 60
 for k in range(0, len(progs), chunk):
